@@ -183,6 +183,23 @@ def run(ctx, rep):
                 verdict_scopes, verdict_names = 'reverse', 'latest-first'
             elif core_ in (['iter', 'flatten', 'position'], ['iter', 'flatten', 'enumerate', 'find'], ['iter', 'flatten', 'enumerate', 'filter', 'next']):
                 verdict_scopes, verdict_names = 'forward', 'earliest-first'
+            elif core_ == ['iter', 'flatten', 'rev', 'position']:
+                # the first match from the END of the concatenation is the innermost, latest declaration; position() then counts
+                # from the end, and the slot is `names in all scopes - 1 - that count`
+                verdict_scopes, verdict_names = 'reverse', 'latest-first(rev)'
+                bound_ = None
+                for st_ in res['body']['stmts']:
+                    if st_['k'] == 's_let' and st_.get('init') is not None and st_['pat'].get('k') == 'p_ident' and find_all(st_['init'], lambda n: n is s_):
+                        bound_ = st_['pat']['name']
+                conv_ = []
+                if bound_:
+                    for b_ in find_all(res['body'], lambda n: n.get('k') == 'binary' and n.get('op') == '-'):
+                        r_ = render(b_).replace(' ', '').replace('(', '').replace(')', '')
+                        for tl_ in ('self.total_len', 'self.symbols.iter.mapVec::len.sum', 'self.symbols.iter.map|s|s.len.sum'):
+                            if r_ in ('%s-1-%s' % (tl_, bound_), '%s-%s-1' % (tl_, bound_)):
+                                conv_.append(r_)
+                if conv_:
+                    verdict_names = 'latest-first'
     if verdict_scopes is None or verdict_names is None:
         raise CheckerError('R09.2: unrecognised lookup idiom in Context::resolve (scopes: %s, names: %s)' % (verdict_scopes, verdict_names))
     rep.ob(verdict_scopes == 'reverse', 'R09.2', 'symbols::Context::resolve', 'scope order', 'scopes are searched innermost first (%s)' % verdict_scopes, 'src/symbols.rs:%d' % res['line'])
@@ -338,6 +355,9 @@ def check_visibility(ctx, rep, rule):
             if 'split_last' in a and 'contexts' in a:
                 # (last, prefix) of the context stack: the prefix's first element is contexts[0] whenever it exists
                 consulted.append('global' if '::first' in a else 'current')
+            elif 'split_first' in a and 'contexts' in a:
+                # (first, rest) of the context stack: the first is contexts[0]; the last of the rest is the current function context
+                consulted.append('current' if ('::last' in a or '::last_mut' in a) else 'global')
             elif 'current_context' in a or ('contexts' in a and ('::last' in a or '::last_mut' in a)):
                 consulted.append('current')
             elif 'contexts' in a and (('index' in a and "('int', 0)" in a) or '::first' in a):
